@@ -314,7 +314,14 @@ class Sim(object):
       {"op":"drop","node":n} {"op":"close"} {"op":"hosts","hosts":[(h,p)..],"form":...}
     PLAN = {"bad":{node:"silent"}, "flaky":[nodes], "fail_first":k, "boot":[codes], "boot_default":code,
             "close_try":i|None, "metas":[raw..], "meta_by_topic":{t:raw}, "meta_default":raw,
-            "coords":[c..], "coord_default":c, "errs":{"t:p":err}, "resp_mode":{node:mode}, "answer_seed":s}
+            "coords":[c..], "coord_default":c, "errs":{"t:p":err}, "resp_mode":{node:mode}, "answer_seed":s,
+            "blackhole":[nodes],
+            -- "honest cluster" keys (the network side decides at serve time from the state of the world) --
+            "live_addrs":[[h,p]..]   addresses where a broker listens: a bootstrap connect elsewhere is refused; a broker
+                                     client's connect elsewhere stays unanswered until the request was given up, then comes
+                                     up and is reset right after the operation (reported to the model as op 7, see reap())
+            "leaders":{"t:p":node}   a broker that is not the leader answers NotLeader(6), an unlisted partition Unknown(3)
+            "coord_of":{"g":node}    a broker that is not the group's coordinator answers NotCoordinator(16)}
     """
 
     def __init__(self, hosts, universe, seed, hosts_form="tuples"):
@@ -413,6 +420,53 @@ class Sim(object):
         v = plan.get(key)
         return default if v is None else v
 
+    @staticmethod
+    def addr_dead(plan, attempt):
+        live = plan.get("live_addrs")
+        if live is None:
+            return False
+        return [host_id(attempt.host), attempt.port] not in [list(x) for x in live]
+
+    @staticmethod
+    def honest_err(plan, node, t, p, grp, errs):
+        e = int(errs.get("%d:%d" % (t, p), 0))
+        if e:
+            return e
+        co = plan.get("coord_of")
+        if grp is not None and grp >= 0 and co is not None:
+            if int(co.get(str(grp), -1)) != node:
+                return 16
+            return 0
+        ld = plan.get("leaders")
+        if ld is not None and grp is None:
+            want = ld.get("%d:%d" % (t, p))
+            if want is None:
+                return 3
+            if int(want) != node:
+                return 6
+        return 0
+
+    def live_transport(self, bc):
+        for a in self.net.attempts:
+            if a.factory is bc and a.transport is not None and a.transport.live:
+                return a.transport
+        return None
+
+    def reap(self, plan):
+        """honest-cluster mode: a connection that came up at an address where no broker listens is reset;
+        -> (case fragment, trace fragment) of the corresponding op-7 steps"""
+        case, trace = [], []
+        if plan.get("live_addrs") is None or self.closed or not self.client.clients:
+            return case, trace
+        live = [list(x) for x in plan["live_addrs"]]
+        for n, bc in sorted(self.client.clients.items()):
+            tr = self.live_transport(bc)
+            if tr is not None and [host_id(tr.peer.host), tr.peer.port] not in live:
+                tr.report_lost()
+                case += [7, n]
+                trace += [-7, 7] + self.dump()
+        return case, trace
+
     def meta_for(self, plan, idx, topics):
         metas = plan.get("metas") or []
         if idx < len(metas):
@@ -468,6 +522,8 @@ class Sim(object):
                     boot = plan.get("boot") or []
                     code = boot[nboot] if nboot < len(boot) else self.plan_get(plan, "boot_default", 1)
                     nboot += 1
+                    if self.addr_dead(plan, a):
+                        code = 0
                     if plan.get("close_try") == ntry:
                         code = 3 if plan.get("close_flavour") == 3 else 4
                     ntry += 1
@@ -497,6 +553,15 @@ class Sim(object):
                     self.settle()
                 else:
                     # ---- known broker
+                    if ev[0] == "connect" and self.addr_dead(plan, ev[1]):
+                        a = ev[1]
+                        cur["tries"].append((0, self.node_of(a), host_id(a.host), a.port, 0))
+                        ntry += 1
+                        self.clock.advance(TIMEOUT_MS / 1000.0)
+                        if a.state == "pending":
+                            a.accept()          # comes up after the request was given up; reset by reap()
+                        self.settle()
+                        continue
                     if ev[0] == "connect":
                         a = ev[1]
                         node = self.node_of(a)
@@ -541,7 +606,7 @@ class Sim(object):
                         if node is None:
                             self.monitor_notes.append(("unexpected-bootstrap-connect",))
                             continue
-                        if node in (plan.get("blackhole") or []):
+                        if node in (plan.get("blackhole") or []) or self.addr_dead(plan, a):
                             # the connection attempt is neither accepted nor refused until the request timed out
                             reqs.append({"node": node, "addr": (host_id(a.host), a.port), "tr": None, "frame": None,
                                          "attempt": a})
@@ -573,7 +638,9 @@ class Sim(object):
 
     def _new_load(self, obs):
         cur = {"shuf": [], "bshuf": [], "tries": [], "resp": None, "kind": None, "asked": None, "done": False,
-               "boot_phase": False}
+               "boot_phase": False,
+               "conn": {n: bool(b.connected()) for n, b in (self.client.clients or {}).items()},
+               "closed_at_start": self.closed}
         obs["loads"].append(cur)
         return cur
 
@@ -653,9 +720,10 @@ class Sim(object):
                     tag = None
                 elif q["key"] in (2, 9, 0):
                     tag = keymap[(t, p)] if keymap is not None else 0
-                rs.append([t, p, int(errs.get("%d:%d" % (t, p), 0)), tag])
+                rs.append([t, p, self.honest_err(plan, q["node"], t, p, rec.get("group"), errs), tag])
             if q["key"] == API_SIMPLE:
-                rs = [[t, p, int(errs.get("%d:%d" % (t, p), 0)), g] for (t, p), g in zip(rec["keys"], rec["tags"])]
+                rs = [[t, p, self.honest_err(plan, q["node"], t, p, ctx.get("group"), errs), g]
+                      for (t, p), g in zip(rec["keys"], rec["tags"])]
             mode = modes.get(str(q["node"]), modes.get(q["node"], "honest"))
             if mode == "reverse":
                 rs = rs[::-1]
@@ -766,6 +834,7 @@ class Sim(object):
             "clients": {n: (host_id(b.host), b.port, b.connected()) for n, b in (c.clients or {}).items()},
             "g2c": {group_id(k): (bm.node_id, host_id(bm.host), bm.port) for k, bm in c.consumer_group_to_brokers.items()},
             "merr": {t: c.metadata_error_for_topic(topic_name(t)) for t in range(self.universe)},
+            "closed": self.closed,
         }
 
     # ---------------------------------------------------------------- operations
@@ -797,7 +866,10 @@ class Sim(object):
             ld.pop("boot_phase", None)
             code = meta_result_code(res)
             after = self.view()
-            gone = sorted(set(before["clients"]) - set(after["clients"])) if not self.closed else []
+            # broker clients closed by the merge: those that existed before, or were created by a try of this very
+            # request, and are gone afterwards
+            tried = set(t[1] for t in ld["tries"] if t[0] == 0)
+            gone = sorted((set(before["clients"]) | tried) - set(after["clients"])) if not self.closed else []
             case = [1, 0 if op["topics"] else 1] + self.enc_uscript(ld) + self.enc_raw(ld["resp"])
             trace = [-7, 1] + self.emit_log(ld) + [code] + lp(gone)
             obs.update(load=ld, code=code, gone=gone, extra_loads=po["loads"][1:], notes_from=nlose0)
@@ -835,7 +907,10 @@ class Sim(object):
                         a.transport.report_lost()
             case, trace = [7, n], [-7, 7]
         elif kind == "close":
-            self.do_close()
+            if self.closed:
+                self.closed_nodes = []     # a second close() is outside the model (it raises AttributeError): skipped
+            else:
+                self.do_close()
             self.settle()
             case, trace = [8], [-7, 8] + lp(self.closed_nodes)
         elif kind == "hosts":
@@ -847,22 +922,39 @@ class Sim(object):
         if self.net.pending():
             self.monitor_notes.append(("attempt-left-pending", kind))
         obs["after"] = self.view()
+        trace = trace + self.dump()
+        rc, rt = self.reap(plan)
+        obs["reaped"] = rc[1::2]
+        if rc:
+            obs["after_reap"] = self.view()
         obs["notes"] = list(self.monitor_notes)
-        return case, trace + self.dump(), obs
+        return case + rc, trace + rt, obs
 
     def _run_send(self, op, plan):
         from afkak import common as C
         from twisted.python.failure import Failure
         c = self.client
         res = []
+        closed0 = self.closed
+
+        def closed_load(po, kind):
+            # a closed client refuses the metadata / coordinator request before any shuffle (client.py:1120-1121):
+            # nothing to read back, the script of that load is empty
+            if closed0 and not po["loads"]:
+                ld = self._new_load(po)
+                ld.pop("boot_phase", None)
+                ld["kind"] = kind
         if op["op"] == "sendcoord":
+            plan = dict(plan)
+            plan.pop("resp_mode", None)     # the single decoded response is the contract of decode_fn here
             g = op["group"]
             tag = op.get("tag", 1)
             pl = SimplePayload("t-1", -1, tag)
             d = c._send_request_to_coordinator(group_name(g), pl, simple_encoder, simple_decoder_one)
             d.addBoth(res.append)
-            po = self.pump(plan, res, {"keymap": None, "expect": True})
+            po = self.pump(plan, res, {"keymap": None, "expect": True, "group": g})
             self.settle()
+            closed_load(po, 1)
             reqs = po["reqs"]
             out = reqs[0] if reqs else {"code": 0, "resps": []}
             case = [10, g, tag] + self.enc_loads(po["loads"], True) + [out["code"]] + lp([x for r in out["resps"] for x in r])
@@ -905,8 +997,10 @@ class Sim(object):
         else:
             raise ValueError(api)
         d.addBoth(res.append)
-        po = self.pump(plan, res, {"keymap": keymap, "expect": expect})
+        po = self.pump(plan, res, {"keymap": keymap, "expect": expect, "group": g})
         self.settle()
+        if payloads:
+            closed_load(po, 0 if g is None else 1)
         reqs = po["reqs"]
         flat = [x for (t, p), tag in zip(payloads, tags) for x in (t, p, tag)]
         case = [3, 0 if api == "direct" else 1, -1 if g is None else g, 1 if fail else 0, 1 if expect else 0] + lp(flat)
